@@ -234,14 +234,18 @@ class ASTSchemaPrinter:
                 flatten(n.directives for n in definition.nodes if n)
             )
 
-        if not directives_nodes:
-            return ""
-
-        return " " + " ".join(
+        printed = [
             print_ast(directive_node)
             for directive_node in directives_nodes
             if self.include_custom_schema_directive(directive_node.name.value)
-        )
+        ]
+
+        # Nothing may be left once the specified directives and the ones
+        # excluded by the white list are gone.
+        if not printed:
+            return ""
+
+        return " " + " ".join(printed)
 
     def print_type(self, type_: GraphQLType) -> str:
         if isinstance(type_, ScalarType):
